@@ -10,6 +10,7 @@ package main
 
 import (
 	"fmt"
+	"strconv"
 	"strings"
 	"time"
 )
@@ -240,7 +241,50 @@ func (m *Machine) strEq(x, y value) *Term {
 					return tFalse
 				}
 			}
-			panic(pathAbort{fmt.Sprintf("cannot decide equality of strings %q and %q", partsString(a), partsString(b))})
+			// an integer rendering against literal text: "%d" of t prints an
+			// optional minus sign and digits, so it equals the literal's
+			// maximal numeric prefix iff t is that number (decidable when
+			// the rendering is not followed by another digit)
+			if lit, op, ok := litVsOpaque(pa, pb); ok && strings.HasPrefix(op.kind, "fmt:%d/") {
+				opSide, litSide := &a, &b
+				if pa.kind == "" {
+					opSide, litSide = &b, &a
+				}
+				n := 0
+				if n < len(lit) && lit[n] == '-' {
+					n++
+				}
+				d0 := n
+				for n < len(lit) && lit[n] >= '0' && lit[n] <= '9' {
+					n++
+				}
+				nextIsDigit := len(*opSide) > 1 && (*opSide)[1].kind == "" && len((*opSide)[1].lit) > 0 &&
+					(*opSide)[1].lit[0] >= '0' && (*opSide)[1].lit[0] <= '9'
+				if n > d0 && !nextIsDigit {
+					if v, err := strconv.ParseInt(lit[:n], 10, 64); err == nil {
+						t := op.args[0]
+						res = st.And(res, st.Eq(t, BV(uint64(v), t.w)))
+						*opSide = (*opSide)[1:]
+						if n == len(lit) {
+							*litSide = (*litSide)[1:]
+						} else {
+							(*litSide)[0] = litPart(lit[n:])
+						}
+						continue
+					}
+				}
+				if n == d0 {
+					return tFalse
+				}
+			}
+			// anything else (a float rendering against literal text, two
+			// different kinds of rendering): not decidable here.  The answer
+			// is left open as a fresh boolean, so a claim that depends on it
+			// is never discharged and a counterexample that depends on it is
+			// confirmed or dismissed by the native replay.
+			m.undecidedEq++
+			u := st.Var(fmt.Sprintf("undecided-string-equality#%d", m.undecidedEq), KBool, 0)
+			return st.And(res, u)
 		}
 		if res.IsFalse() {
 			return tFalse
